@@ -106,7 +106,16 @@ fn e6() {
     println!("E6 rust_value: {:?}", scale_typegen_description::rust_value(id, &reg, &s).map(|t| t.to_string()));
 }
 
-fn main() { e1(); e2(); e3(); e4(); e5(); e7(); e6(); }
+fn main() { e1(); e2(); e3(); e4(); e5(); e7(); e6(); e11(); }
+fn e11() {
+    #[derive(TypeInfo)] struct S { b: Box<u32> }
+    let mut r = scale_info::Registry::new();
+    let id = r.register_type(&meta_type::<S>()).id;
+    let reg: PortableRegistry = r.into();
+    let s = TypeGeneratorSettings::default();
+    println!("E11 gen: {}", gen_with(&reg, &s).unwrap());
+    println!("E11 rust_value: {:?}", scale_typegen_description::rust_value(id, &reg, &s).map(|t| t.to_string()));
+}
 fn e1() {
     #[derive(TypeInfo)]
     struct S { d: std::time::Duration }
